@@ -193,6 +193,18 @@ func (c *c07) RunCase(w *core.Worker, idx int, seed uint64, res *core.CaseResult
 		}
 	}
 done:
+	// ---- a transaction that consists of a replace intent, rejected by the device once
+	{
+		bad := 0
+		for _, f := range res.Findings {
+			if !strings.HasPrefix(f.Key, "C07/cache-read-failure-is-invisible/") {
+				bad++
+			}
+		}
+		if bad == 0 && len(steps) > 0 {
+			c.replaceProbe(res, rng, steps[0])
+		}
+	}
 	res.Count("fault_runs", total)
 	res.Count("faulty_calls_failed_and_repeated", retried)
 	res.Hash = core.HashOf(func() []string {
@@ -398,3 +410,54 @@ func (c *c07) oneFault(res *core.CaseResult, steps [][]stepIntent, s int, site c
 }
 
 var _ = sort.Strings
+
+// replaceProbe: the device rejects the Set of a transaction that carries only a replace intent. The error must surface,
+// nothing may be persisted, the running mirror stays as it was, the datastore is unlocked, and the repeated request succeeds.
+func (c *c07) replaceProbe(res *core.CaseResult, rng *core.Rng, first []stepIntent) {
+	w := c.fresh(res)
+	defer w.run.close()
+	w.run.rng = rng
+	if _, ok := c07Commit(w, "t0", first); !ok {
+		return
+	}
+	vals := map[string]string{}
+	for j := 0; j < 2+rng.Intn(3); j++ {
+		l := c.h.pool[rng.Intn(len(c.h.pool))]
+		vals[l.XPath] = l.Vals[rng.Intn(len(l.Vals))]
+	}
+	repl := stepIntent{Owner: "repl", Prio: 2, Vals: vals, Kind: "replace-intent"}
+	where := fmt.Sprintf("after [%s]: transaction with the replace intent %s, the device rejects the Set", stepString(first), model.SortedMap(vals))
+	before := c.state(w)
+	w.dev.FailNext = 1
+	out := w.run.set("rp", nil, &repl, time.Minute, false)
+	w.dev.FailNext = 0
+	res.Count("replace_intent_fault_runs", 1)
+	if out.panicked {
+		return
+	}
+	if out.convErr == nil && out.err == nil && !out.rejected {
+		res.Violate("C07/device-rejects-but-set-succeeds/replace-intent", "%s: TransactionSet returned success", where)
+	}
+	after := c.state(w)
+	if d := fixture.MapDiff(before.I, after.I); d != "" {
+		res.Violate("C07/persisted-although-device-rejected/replace-intent", "%s: intended store changed: %s", where, d)
+	}
+	if d := fixture.MapDiff(before.R, after.R); d != "" {
+		res.Violate("C07/running-changed-although-device-rejected/replace-intent", "%s: running store changed: %s", where, d)
+	}
+	if id, _ := w.run.ds.VerifOpenTransaction(); id != "" {
+		res.Violate("C07/left-locked/replace-intent", "%s: transaction %q is still registered", where, id)
+		w.run.ds.TransactionCancel(w.run.ctx, id)
+	}
+	for _, f := range res.Findings {
+		if strings.HasSuffix(f.Key, "/replace-intent") {
+			return
+		}
+	}
+	out2 := w.run.set("rp2", nil, &repl, time.Minute, false)
+	if out2.convErr != nil || out2.err != nil || out2.rejected {
+		res.Violate("C07/repeat-fails/replace-intent", "%s: the repeated request fails: conv=%v err=%v rejected=%v", where, out2.convErr, out2.err, out2.rejected)
+		return
+	}
+	w.run.ds.TransactionConfirm(w.run.ctx, "rp2")
+}
